@@ -5,7 +5,7 @@ set -u
 edit="$1"; file="$2"; shift 2
 D=$(mktemp -d /tmp/mut.XXXXXX)
 rsync -a --exclude target --exclude .git /repo/ "$D/"
-if [ "$file" = "-" ]; then (cd "$D" && patch -p1 -s < "$edit") || { echo "PATCH FAILED"; rm -rf "$D"; exit 3; }
+if [ "$file" = "-" ]; then (cd "$D" && patch -p1 -s --no-backup-if-mismatch < "$edit") || { echo "PATCH FAILED"; rm -rf "$D"; exit 3; }
 else sed -i "$edit" "$D/$file"; fi
 (cd "$D" && diff -r -q /repo/src src | head -3)
 rc=0
